@@ -17,15 +17,55 @@ PID = "C36"
 def corpus():
     t = os.path.join(REPO, "mfront/tests")
     pairs = []
-    for sub, ifs in (("properties", ["c", "cxx"]), ("behaviours", ["generic"]), ("models", ["generic"])):
+    for sub, ifs in (("properties", ["c", "cxx", "excel", "octave"]), ("behaviours", ["generic"]), ("models", ["generic"])):
         d = os.path.join(t, sub)
         if not os.path.isdir(d):
             continue
-        for f in sorted(os.listdir(d)):
-            if f.endswith(".mfront"):
-                for i in ifs:
-                    pairs.append((os.path.join(d, f), i))
+        for root, dirs, files in os.walk(d):   # sub-directories too (StandardElasticity, StandardElastoViscoPlasticity, ...)
+            dirs.sort()
+            for f in sorted(files):
+                if f.endswith(".mfront"):
+                    for i in ifs:
+                        pairs.append((os.path.join(root, f), i))
     return pairs
+
+
+_CLASH = None
+
+
+def clash_index():
+    """basename -> directories of the repository holding a .mfront file of that name (only names present in at least two directories)"""
+    global _CLASH
+    if _CLASH is None:
+        idx = {}
+        for root, dirs, files in os.walk(REPO):
+            dirs[:] = sorted(d for d in dirs if d not in ("_build", ".git"))
+            for f in sorted(files):
+                if f.endswith(".mfront"):
+                    idx.setdefault(f, []).append(root)
+        _CLASH = {k: v for k, v in idx.items() if len(v) >= 2}
+    return _CLASH
+
+
+def foreign_inputs(pair):
+    """inputs living in OTHER directories that hold a file with the same name as an auxiliary file of the pair (@MaterialLaw, @Import, @Model ...):
+    treated earlier in the same mfront invocation, they must not change how the pair's own auxiliary files are found"""
+    import re
+    try:
+        txt = open(pair[0], errors="replace").read()
+    except OSError:
+        return []
+    names = sorted({os.path.basename(n) for n in re.findall(r'"([A-Za-z0-9_./+-]+\.mfront)"', txt)})
+    out = []
+    usual = {os.path.dirname(pair[0]), os.path.join(REPO, "mfront/tests/properties")}
+    for n in names:
+        for d in clash_index().get(n, []):
+            if d in usual:
+                continue
+            for f in sorted(os.listdir(d)):
+                if f.endswith(".mfront") and f != n:
+                    out.append(os.path.join(d, f))
+    return out
 
 
 def run_mfront(wd, inp, nd_seed=None, env_seed=None, iolog=None, before=()):
@@ -61,14 +101,24 @@ def outputs_of_run(wd, iolog):
                 paths.append(f[2])
     out = {}
     for p in sorted(set(paths)):
-        if os.path.basename(p) in ("targets.lst", "Makefile.mfront", "CMakeLists.txt"):
+        if os.path.basename(p) in ("targets.lst", "Makefile.mfront", "CMakeLists.txt", "excel.lst") or p.endswith(".bas"):   # cumulative registries (one per directory / material)
             continue
         fp = os.path.join(wd, p)
         out[p] = hashlib.sha256(open(fp, "rb").read()).hexdigest() if os.path.exists(fp) else "absent"
     return out
 
 
-VARIANTS_QUICK = ["seed", "seed", "repeat", "after-others", "after-other-interface", "env-order", "same-invocation"]
+def tree_hashes(wd):
+    out = {}
+    for root, dirs, files in os.walk(wd):
+        dirs.sort()
+        for f in sorted(files):
+            fp = os.path.join(root, f)
+            out[os.path.relpath(fp, wd)] = hashlib.sha256(open(fp, "rb").read()).hexdigest()
+    return out
+
+
+VARIANTS_QUICK = ["seed", "seed", "repeat", "after-others", "after-other-interface", "env-order", "same-invocation", "same-invocation-foreign-directory"]
 VARIANTS_THOROUGH = VARIANTS_QUICK + ["seed", "seed", "repeat", "after-others", "env-order", "seed", "same-invocation"]
 
 
@@ -102,19 +152,46 @@ def check_pair(root, idx, pair, all_pairs, variants, seed):
         nd = r.range(1, 10 ** 9)
         fresh()
         hist = v
+        snap = None
         if v == "repeat":
             run_mfront(wd, pair)                              # first run, unperturbed; the compared run is the second one
+            snap = tree_hashes(wd)                            # ... and it must be a no-op for the whole directory, cumulative files included
         elif v == "after-others":
             for k in range(2):
                 o = all_pairs[(idx * 31 + 7 * k + vi + 1) % len(all_pairs)]
                 if o != pair:
                     run_mfront(wd, o)
         elif v == "after-other-interface":
-            alt = {"c": "cxx", "cxx": "c", "generic": "generic"}[pair[1]]
+            alt = {"c": "cxx", "cxx": "c", "generic": "generic", "excel": "c", "octave": "cxx"}[pair[1]]
             run_mfront(wd, (pair[0], alt)) if alt != pair[1] else run_mfront(wd, all_pairs[(idx + 3) % len(all_pairs)])
         lg = os.path.join(pd, "io.log")
         if os.path.exists(lg):
             os.remove(lg)
+        if v == "same-invocation-foreign-directory":
+            # as below, but the earlier inputs of the invocation come from directories that hold a file named like one of the pair's own
+            # auxiliary files (the repository has such name clashes): each candidate is tried in turn until one invocation succeeds
+            cands = foreign_inputs(pair)
+            done = False
+            for ci in range(min(len(cands), 6)):
+                o = cands[(idx + vi + ci) % len(cands)]
+                fresh()
+                if os.path.exists(lg):
+                    os.remove(lg)
+                rc, out = run_mfront(wd, pair, nd_seed=None, iolog=lg, before=[(o, pair[1])])
+                if rc0 != 0 or rc != 0:
+                    continue
+                got = {q: h for q, h in outputs_of_run(wd, lg).items() if q in ref}
+                res["variants"].append(hist); done = True
+                if got != ref:
+                    diff = sorted(k for k in set(got) | set(ref) if got.get(k) != ref.get(k))
+                    res["viol"] = ("generated-files-differ", "variant %d (%s: after %s in one mfront invocation): %s differ from the files generated when the input is treated alone" % (
+                        vi, hist, os.path.relpath(o, REPO), diff[:4]), {"variant": vi, "history": hist, "files": diff[:8], "before": [o]})
+                break
+            if not done:
+                res["skipped_foreign_directory"] = res.get("skipped_foreign_directory", 0) + 1
+            if res["viol"]:
+                break
+            continue
         if v == "same-invocation":
             # history inside one process: the input is the last of three inputs given to a single mfront invocation (same interface and
             # family); only the files the baseline run wrote for this input are compared, and only when the whole invocation succeeds
@@ -143,6 +220,13 @@ def check_pair(root, idx, pair, all_pairs, variants, seed):
         rc, out = run_mfront(wd, pair, nd_seed=nd, env_seed=(nd if v == "env-order" else None), iolog=lg)
         got = outputs_of_run(wd, lg)
         res["variants"].append(hist)
+        if snap is not None and rc == 0 and rc0 == 0:
+            now = tree_hashes(wd)
+            if now != snap:
+                diff = sorted(k for k in set(now) | set(snap) if now.get(k) != snap.get(k))
+                res["viol"] = ("rerun-changes-the-directory", "variant %d (%s, nd seed %d): generating the same input a second time in the same directory changed %s (cumulative files included: a second generation must be a no-op)" % (vi, hist, nd, diff[:4]),
+                               {"variant": vi, "history": hist, "nd_seed": nd, "files": diff[:8]})
+                break
         if rc != rc0 or out != out0:
             res["viol"] = ("exit-status-or-messages-differ", "variant %d (%s, nd seed %d): exit %d vs %d; output %r vs %r" % (vi, hist, nd, rc, rc0, out[-200:], out0[-200:]), {"variant": vi, "history": hist, "nd_seed": nd})
             break
@@ -183,7 +267,7 @@ def main():
             byfam = {}
             for i, p in enumerate(pairs):
                 byfam.setdefault(os.path.basename(os.path.dirname(p[0])) + ":" + p[1], []).append(i)
-            chosen = []
+            chosen = [i for i, p in enumerate(pairs) if foreign_inputs(p)][:12]   # the pairs that can meet a name clash in another directory are always in
             fams = sorted(byfam)
             while len(chosen) < min(n, len(pairs)):
                 for f in fams:
